@@ -12,15 +12,24 @@ type BlobWriterT = ociregistry.BlobWriter
 // biased towards values that make calls succeed (things pushed earlier) but every
 // argument is sometimes drawn blindly.
 func randOps(rnd *rand.Rand, cat *Catalog, steps int, profile string, honest bool) []Op {
-	var blobs, mans []string
+	var blobs, mans, phantoms []string
 	for _, c := range cat.Contents {
-		if c.Man {
+		if c.Phantom {
+			phantoms = append(phantoms, c.ID)
+		} else if c.Man {
 			mans = append(mans, c.ID)
 		} else {
 			blobs = append(blobs, c.ID)
 		}
 	}
 	pick := func(xs []string) string { return xs[rnd.Intn(len(xs))] }
+	// a digest argument: now and then a well-formed digest of another algorithm (held by nobody)
+	digOf := func(xs []string) string {
+		if len(phantoms) > 0 && rnd.Intn(12) == 0 {
+			return pick(phantoms)
+		}
+		return pick(xs)
+	}
 	// a single repository gets most of the traffic so that histories are deep
 	hot := pick(cat.Repos)
 	repo := func() string {
@@ -125,7 +134,7 @@ func randOps(rnd *rand.Rand, cat *Catalog, steps int, profile string, honest boo
 				dd := s.target.ID
 				if s.pos < len(s.target.Elems) || rnd.Intn(6) == 0 {
 					// an early or wrong commit: must fail and store nothing
-					dd = pick(blobs)
+					dd = digOf(blobs)
 				}
 				ops = append(ops, Op{Op: "Commit", R: s.r, U: s.u, DD: dd})
 				hs = append(hs[:i], hs[i+1:]...)
@@ -157,7 +166,7 @@ func randOps(rnd *rand.Rand, cat *Catalog, steps int, profile string, honest boo
 				ops = append(ops, Op{Op: "RawPatch", R: r, U: u, Data: data, Off: off})
 				openU[u] = append(openU[u], data...)
 			case x < 8:
-				dd := pick(blobs)
+				dd := digOf(blobs)
 				all := append(append([]int{}, openU[u]...), data...)
 				if rnd.Intn(4) != 0 {
 					for _, c := range blobs {
@@ -182,7 +191,7 @@ func randOps(rnd *rand.Rand, cat *Catalog, steps int, profile string, honest boo
 			op := Op{Op: "PushBlob", R: repo(), C: c, DD: c, DS: len(cat.byID[c].Data)}
 			switch rnd.Intn(10) {
 			case 0:
-				op.DD = pick(blobs)
+				op.DD = digOf(blobs)
 			case 1:
 				op.DS += 1 + rnd.Intn(2)
 			case 2:
@@ -222,13 +231,13 @@ func randOps(rnd *rand.Rand, cat *Catalog, steps int, profile string, honest boo
 			ops = append(ops, Op{Op: "PushManifest", R: r, T: t, C: m, MT: mt})
 			pushedM = append(pushedM, m)
 		case k < 32:
-			ops = append(ops, Op{Op: "MountBlob", From: repo(), R: repo(), C: pick(blobs)})
+			ops = append(ops, Op{Op: "MountBlob", From: repo(), R: repo(), C: digOf(blobs)})
 		case k < 34:
 			// single-POST upload, sometimes with a digest that is not the content's
 			c := pick(blobs)
 			dd := c
 			if rnd.Intn(3) == 0 {
-				dd = pick(blobs)
+				dd = digOf(blobs)
 			}
 			ops = append(ops, Op{Op: "PostBlob", R: repo(), C: c, DD: dd})
 		case k < 38:
@@ -270,7 +279,7 @@ func randOps(rnd *rand.Rand, cat *Catalog, steps int, profile string, honest boo
 			uRepo[u] = r
 		case k < 50:
 			u := pickU()
-			dd := pick(blobs)
+			dd := digOf(blobs)
 			// usually commit with the digest of what was written
 			if rnd.Intn(4) != 0 {
 				for _, b := range blobs {
@@ -290,9 +299,9 @@ func randOps(rnd *rand.Rand, cat *Catalog, steps int, profile string, honest boo
 			u := pickU()
 			ops = append(ops, Op{Op: "UpSize", R: repoOfU(u), U: u})
 		case k < 57:
-			ops = append(ops, Op{Op: "DeleteBlob", R: repo(), C: pick(blobs)})
+			ops = append(ops, Op{Op: "DeleteBlob", R: repo(), C: digOf(blobs)})
 		case k < 62:
-			m := pick(mans)
+			m := digOf(mans)
 			if len(pushedM) > 0 && rnd.Intn(3) != 0 {
 				m = pick(pushedM)
 			}
@@ -300,9 +309,9 @@ func randOps(rnd *rand.Rand, cat *Catalog, steps int, profile string, honest boo
 		case k < 66:
 			ops = append(ops, Op{Op: "DeleteTag", R: repo(), T: pick(cat.Tags)})
 		case k < 70:
-			ops = append(ops, Op{Op: "GetBlob", R: repo(), C: pick(blobs)})
+			ops = append(ops, Op{Op: "GetBlob", R: repo(), C: digOf(blobs)})
 		case k < 75:
-			b := pick(blobs)
+			b := digOf(blobs)
 			n := len(cat.byID[b].Elems)
 			o0, o1 := rnd.Intn(n+3)-1, rnd.Intn(n+3)-1
 			if containsBlock(cat.byID[b].Elems) {
@@ -312,13 +321,13 @@ func randOps(rnd *rand.Rand, cat *Catalog, steps int, profile string, honest boo
 			}
 			ops = append(ops, Op{Op: "GetBlobRange", R: repo(), C: b, O0: o0, O1: o1})
 		case k < 79:
-			ops = append(ops, Op{Op: pick([]string{"GetManifest", "ResolveManifest"}), R: repo(), C: pick(mans)})
+			ops = append(ops, Op{Op: pick([]string{"GetManifest", "ResolveManifest"}), R: repo(), C: digOf(mans)})
 		case k < 84:
 			ops = append(ops, Op{Op: pick([]string{"GetTag", "ResolveTag"}), R: repo(), T: pick(cat.Tags)})
 		case k < 87:
-			ops = append(ops, Op{Op: "ResolveBlob", R: repo(), C: pick(blobs)})
+			ops = append(ops, Op{Op: "ResolveBlob", R: repo(), C: digOf(blobs)})
 		case k < 91:
-			ops = append(ops, Op{Op: "Referrers", R: repo(), C: pick(mans)})
+			ops = append(ops, Op{Op: "Referrers", R: repo(), C: digOf(mans)})
 		case k < 95:
 			ops = append(ops, Op{Op: "ListTags", R: repo(), Start: startOf(cat.Tags)})
 		default:
